@@ -29,12 +29,14 @@ func layerList(call ssa.CallInstruction) []string {
 	if !ok {
 		return nil
 	}
-	sl, ok := ia.X.(*ssa.Slice)
-	if !ok {
-		return nil
+	var al *ssa.Alloc
+	switch x := ia.X.(type) {
+	case *ssa.Slice: // a slice literal: []*sync.Map{..}
+		al, _ = x.X.(*ssa.Alloc)
+	case *ssa.Alloc: // an array literal: [...]*sync.Map{..}
+		al = x
 	}
-	al, ok := sl.X.(*ssa.Alloc)
-	if !ok || al.Referrers() == nil {
+	if al == nil || al.Referrers() == nil {
 		return nil
 	}
 	byIdx := map[int64]string{}
@@ -422,10 +424,59 @@ func C13(c *Ctx) {
 			}
 		}
 		okRevert, okTrunc := false, false
+		// a helper that returns both the position and the changer index recorded there:
+		// idx, changerIndex := findRevision(revisions, id)
+		var pairCall *ssa.Call
+		pairIdx, pairChanger := -1, -1
 		for _, call := range core.Calls(rts) {
+			cl, isCall := call.(*ssa.Call)
+			g := core.StaticCallee(call)
+			if !isCall || g == nil || len(g.Blocks) == 0 || core.PkgOf(g) != ledgerPkg || g.Signature.Results().Len() != 2 {
+				continue
+			}
+			var search ssa.Value
+			for _, gc := range core.Calls(g) {
+				if core.CalleeName(gc) == "sort.Search" {
+					search = gc.Value()
+				}
+			}
+			if search == nil {
+				continue
+			}
+			pi, ci := -1, -1
+			for _, ret := range core.Returns(g) {
+				for k := 0; k < 2; k++ {
+					if core.Strip(ret.Results[k]) == search {
+						pi = k
+					} else if core.Mentions(ret.Results[k], func(v ssa.Value) bool {
+						ia, ok := v.(*ssa.IndexAddr)
+						return ok && core.Strip(ia.Index) == search
+					}) && core.Mentions(ret.Results[k], fieldLoad("revision", "changerIndex")) {
+						ci = k
+					}
+				}
+			}
+			if pi >= 0 && ci >= 0 {
+				pairCall, pairIdx, pairChanger = cl, pi, ci
+			}
+		}
+		if pairCall != nil && idx == nil {
+			for _, rf := range *pairCall.Referrers() {
+				if ex, ok := rf.(*ssa.Extract); ok && ex.Index == pairIdx {
+					idx = ex
+				}
+			}
+		}
+		for _, call := range core.Calls(rts) {
+			if pairCall != nil && strings.HasSuffix(core.CalleeName(call), "stateChanger).revert") {
+				if ex, ok := core.Strip(call.Common().Args[2]).(*ssa.Extract); ok && ex.Tuple == ssa.Value(pairCall) && ex.Index == pairChanger {
+					okRevert = true
+					continue
+				}
+			}
 			if strings.HasSuffix(core.CalleeName(call), "stateChanger).revert") {
 				arg := call.Common().Args[2]
-				okRevert = idx != nil && core.Mentions(arg, func(v ssa.Value) bool {
+				okRevert = okRevert || idx != nil && core.Mentions(arg, func(v ssa.Value) bool {
 					ia, ok := v.(*ssa.IndexAddr)
 					return ok && core.Strip(ia.Index) == idx
 				}) && core.Mentions(arg, fieldLoad("revision", "changerIndex"))
@@ -644,7 +695,7 @@ func (c *Ctx) cacheFill(rule string) {
 	}
 	if ad := c.fn(rule, "internal/ledger.(*AccountCache).add"); ad != nil {
 		n := 0
-		for _, cb := range ad.AnonFuncs {
+		for _, cb := range core.WithClosures(ad)[1:] {
 			isAdd := func(in ssa.Instruction) bool {
 				call, ok := in.(ssa.CallInstruction)
 				return ok && core.CalleeName(call) == "(*github.com/hashicorp/golang-lru.Cache).Add"
